@@ -188,9 +188,10 @@ Proof.
 Qed.
 
 (* once a PINGREQ is queued or outstanding the drain queues no other: it writes exactly `owed`, whatever time the writes take *)
-Theorem flush_outbound_wire_nmp : forall fuel w w',
+Theorem flush_outbound_wire_nmp_full : forall fuel w w',
   WInv (w_sess w) -> NoMorePing (w_sess w) -> flush_outbound fuel w = (w', ODone tt) ->
-  w_wire w' = w_wire w ++ owed (s_ob (w_sess w)) /\ next_step (s_ob (w_sess w')) = None.
+  w_wire w' = w_wire w ++ owed (s_ob (w_sess w)) /\ next_step (s_ob (w_sess w')) = None /\
+  NoMorePing (w_sess w') /\ WInv (w_sess w').
 Proof.
   induction fuel as [|f IH]; intros w w' I Hp H; [discriminate|]. cbn [flush_outbound] in H.
   unfold maybe_queue_pingreq in H. rewrite (nmp_sq _ (w_now w) Hp), upd_sess_id in H.
@@ -200,19 +201,24 @@ Proof.
     assert (I2 : WInv (w_sess w2)).
     { pose proof (perform_outbound_step_wq st (w_now w) w En) as Hwq. rewrite E2 in Hwq. eapply WInv_wq; [exact Hwq|exact I]. }
     destruct (step_prefix _ _ _ _ _ I En E2 Logic.I) as [P [Hw Ho]].
-    destruct (IH w2 w' I2 (step_nmp _ _ _ _ _ I En Hp E2) H) as [Hw' Hnone]. split; [|exact Hnone].
+    destruct (IH w2 w' I2 (step_nmp _ _ _ _ _ I En Hp E2) H) as [Hw' [Hnone [N' I']]]. split; [|split; [exact Hnone|split; assumption]].
     rewrite Hw', Hw, Ho, <- app_assoc. reflexivity.
-  - inversion H; subst w'. split; [|exact En]. rewrite (owed_no_step _ En), app_nil_r. reflexivity.
+  - inversion H; subst w'. split; [|split; [exact En|split; assumption]]. rewrite (owed_no_step _ En), app_nil_r. reflexivity.
 Qed.
+
+Theorem flush_outbound_wire_nmp : forall fuel w w',
+  WInv (w_sess w) -> NoMorePing (w_sess w) -> flush_outbound fuel w = (w', ODone tt) ->
+  w_wire w' = w_wire w ++ owed (s_ob (w_sess w)) /\ next_step (s_ob (w_sess w')) = None.
+Proof. intros fuel w w' I Hp H. destruct (flush_outbound_wire_nmp_full _ _ _ I Hp H) as [A [B _]]. split; assumption. Qed.
 
 (* ---------------------------------------------------------------- the drain on every transport *)
 Definition PINGREQ_BYTES : bytes := [192; 0].
 
-Theorem flush_outbound_wire_every_transport : forall fuel w w',
+Theorem flush_outbound_wire_every_full : forall fuel w w',
   WInv (w_sess w) -> flush_outbound fuel w = (w', ODone tt) ->
   (w_wire w' = w_wire w ++ owed (s_ob (w_sess w)) \/
-   exists A B, owed (s_ob (w_sess w)) = A ++ B /\ w_wire w' = w_wire w ++ A ++ PINGREQ_BYTES ++ B) /\
-  next_step (s_ob (w_sess w')) = None.
+   exists A B, owed (s_ob (w_sess w)) = A ++ B /\ w_wire w' = w_wire w ++ A ++ PINGREQ_BYTES ++ B /\ NoMorePing (w_sess w')) /\
+  next_step (s_ob (w_sess w')) = None /\ WInv (w_sess w') /\ (NoMorePing (w_sess w) -> NoMorePing (w_sess w')).
 Proof.
   induction fuel as [|f IH]; intros w w' I H; [discriminate|].
   destruct (should_queue_pingreq (w_sess w) (w_now w)) eqn:Esq.
@@ -233,8 +239,8 @@ Proof.
     { cbn [flush_outbound] in H |- *. rewrite Eq in H. cbn [w_sess w_now upd_sess].
       unfold maybe_queue_pingreq at 1. rewrite (nmp_sq _ (w_now w) N1).
       replace (upd_sess (upd_sess w s1) s1) with (upd_sess w s1) by (destruct w; reflexivity). exact H. }
-    destruct (flush_outbound_wire_nmp (S f) (upd_sess w s1) w' I1 N1 H1) as [Hw Hn]. split; [|exact Hn].
-    right. exists A, B. split; [exact E1|]. rewrite Hw. cbn [w_wire w_sess upd_sess]. rewrite E2. reflexivity.
+    destruct (flush_outbound_wire_nmp_full (S f) (upd_sess w s1) w' I1 N1 H1) as [Hw [Hn [N' I']]]. split; [|split; [exact Hn|split; [exact I'|intros _; exact N']]].
+    right. exists A, B. split; [exact E1|]. split; [|exact N']. rewrite Hw. cbn [w_wire w_sess upd_sess]. rewrite E2. reflexivity.
   - (* no PINGREQ now: one step, then the same question again *)
     cbn [flush_outbound] in H. unfold maybe_queue_pingreq in H. rewrite Esq, upd_sess_id in H.
     destruct (next_step (s_ob (w_sess w))) as [st|] eqn:En.
@@ -243,10 +249,153 @@ Proof.
       assert (I2 : WInv (w_sess w2)).
       { pose proof (perform_outbound_step_wq st (w_now w) w En) as Hwq. rewrite E2 in Hwq. eapply WInv_wq; [exact Hwq|exact I]. }
       destruct (step_prefix _ _ _ _ _ I En E2 Logic.I) as [P [Hw Ho]].
-      destruct (IH w2 w' I2 H) as [[Hw'|[A [B [E1 Hw']]]] Hnone]; (split; [|exact Hnone]).
+      assert (Nstep : NoMorePing (w_sess w) -> NoMorePing (w_sess w2)) by (intros Hp; exact (step_nmp _ _ _ _ _ I En Hp E2)).
+      destruct (IH w2 w' I2 H) as [[Hw'|[A [B [E1 [Hw' N']]]]] [Hnone [I' Nk]]]; (split; [|split; [exact Hnone|split; [exact I'|intros Hp; exact (Nk (Nstep Hp))]]]).
       * left. rewrite Hw', Hw, Ho, <- app_assoc. reflexivity.
-      * right. exists (P ++ A), B. split; [rewrite Ho, E1, app_assoc; reflexivity|]. rewrite Hw', Hw, <- !app_assoc. reflexivity.
-    + inversion H; subst w'. split; [|exact En]. left. rewrite (owed_no_step _ En), app_nil_r. reflexivity.
+      * right. exists (P ++ A), B. split; [rewrite Ho, E1, app_assoc; reflexivity|]. split; [|exact N']. rewrite Hw', Hw, <- !app_assoc. reflexivity.
+    + inversion H; subst w'. split; [|split; [exact En|split; [exact I|intros Hp; exact Hp]]]. left. rewrite (owed_no_step _ En), app_nil_r. reflexivity.
+Qed.
+
+Theorem flush_outbound_wire_every_transport : forall fuel w w',
+  WInv (w_sess w) -> flush_outbound fuel w = (w', ODone tt) ->
+  (w_wire w' = w_wire w ++ owed (s_ob (w_sess w)) \/
+   exists A B, owed (s_ob (w_sess w)) = A ++ B /\ w_wire w' = w_wire w ++ A ++ PINGREQ_BYTES ++ B) /\
+  next_step (s_ob (w_sess w')) = None.
+Proof.
+  intros fuel w w' I H. destruct (flush_outbound_wire_every_full _ _ _ I H) as [[Hw|[A [B [E1 [Hw _]]]]] [Hn _]]; (split; [|exact Hn]).
+  - left. exact Hw.
+  - right. exists A, B. split; assumption.
+Qed.
+
+
+Lemma pframe_nmp : forall s s', pframe s s' -> NoMorePing s -> NoMorePing s'.
+Proof.
+  intros s s' [H1 [_ H3]] [H|H]; [left; rewrite H1; exact H|right]. unfold has_pending_pingreq in *. rewrite H3. exact H.
+Qed.
+
+(* ---------------------------------------------------------------- the operations on every transport *)
+(* `ins X Y`: Y is X, or X with one PINGREQ inserted *)
+Definition ins (X Y : bytes) : Prop := Y = X \/ exists A B, X = A ++ B /\ Y = A ++ PINGREQ_BYTES ++ B.
+
+Lemma ins_app_l : forall P X Y, ins X Y -> ins (P ++ X) (P ++ Y).
+Proof.
+  intros P X Y [->|[A [B [-> ->]]]]; [left; reflexivity|right]. exists (P ++ A), B. rewrite <- !app_assoc. split; reflexivity.
+Qed.
+Lemma ins_app_r : forall S X Y, ins X Y -> ins (X ++ S) (Y ++ S).
+Proof.
+  intros S X Y [->|[A [B [-> ->]]]]; [left; reflexivity|right]. exists A, (B ++ S). rewrite <- !app_assoc. split; reflexivity.
+Qed.
+
+(* the packet has been retained behind a drained queue; the second drain runs *)
+Lemma finish_retained_every : forall fuel w1 s2 bs o w',
+  WInv (w_sess w1) -> next_step (s_ob (w_sess w1)) = None ->
+  sstep (w_sess w1) LOther s2 -> owed (s_ob s2) = owed (s_ob (w_sess w1)) ++ bs -> pframe (w_sess w1) s2 ->
+  finish_mid fuel (upd_sess w1 s2) (MRetained o) = (w', ODone (Some o)) ->
+  (exists Y, ins bs Y /\ w_wire w' = w_wire w1 ++ Y) /\ (NoMorePing (w_sess w1) -> w_wire w' = w_wire w1 ++ bs) /\
+  next_step (s_ob (w_sess w')) = None.
+Proof.
+  intros fuel w1 s2 bs o w' I Hn Hstep Ho Hk H. cbn [finish_mid] in H. unfold bindu in H.
+  destruct (flush_outbound fuel (upd_sess w1 s2)) as [w3 o3] eqn:Ef. destruct o3 as [u|e| | |]; try discriminate. inversion H; subst w'. clear H.
+  destruct u.
+  assert (I2 : WInv (w_sess (upd_sess w1 s2))) by (cbn [w_sess upd_sess]; eapply WInv_step; eassumption).
+  assert (Eo : owed (s_ob (w_sess (upd_sess w1 s2))) = bs) by (cbn [w_sess upd_sess]; rewrite Ho, (owed_no_step _ Hn); reflexivity).
+  destruct (flush_outbound_wire_every_full _ _ _ I2 Ef) as [Hd [Hn3 _]].
+  split; [|split; [|exact Hn3]].
+  - destruct Hd as [Hw|[A [B [E1 [Hw _]]]]].
+    + exists bs. split; [left; reflexivity|]. rewrite Hw, Eo. reflexivity.
+    + exists (A ++ PINGREQ_BYTES ++ B). split; [right; exists A, B; split; [rewrite <- Eo; exact E1|reflexivity]|]. rewrite Hw. reflexivity.
+  - intros Hp. assert (N2 : NoMorePing (w_sess (upd_sess w1 s2))) by (cbn [w_sess upd_sess]; exact (pframe_nmp _ _ Hk Hp)).
+    destruct (flush_outbound_wire_nmp _ _ _ I2 N2 Ef) as [Hw _]. rewrite Hw, Eo. reflexivity.
+Qed.
+
+Theorem op_publish_wire_every_transport : forall fuel r w w' op,
+  WInv (w_sess w) -> op_publish fuel r w = (w', ODone (Some op)) ->
+  exists w1 bs cap off Y,
+    flush_outbound fuel w = (w1, ODone tt) /\
+    enc_publish cap (pub_request r (effective_qos (w_sess w1) (pr_qos r)) (op_pid op)) = SOk off bs /\
+    ins (owed (s_ob (w_sess w)) ++ bs) Y /\ w_wire w' = w_wire w ++ Y /\ next_step (s_ob (w_sess w')) = None.
+Proof.
+  intros fuel r w w' op I H. unfold op_publish in H. destruct (negb (w_live w)); [discriminate|]. unfold bindu in H.
+  destruct (flush_outbound fuel w) as [w1 o1] eqn:E1. destruct o1 as [u|e| | |]; try discriminate. destruct u.
+  destruct (flush_outbound_wire_every_full _ _ _ I E1) as [Hd1 [Hn1 [I1 _]]].
+  destruct (publish_middle (w_sess w1) (w_live w1) r) as [s2 m] eqn:Em.
+  destruct m as [e|o|bs0].
+  - cbn [finish_mid] in H. discriminate.
+  - assert (Eo : o = op).
+    { cbn [finish_mid] in H. unfold bindu in H. destruct (flush_outbound fuel (upd_sess w1 s2)) as [w3 o3]. destruct o3; try discriminate. now inversion H. }
+    subst o. destruct (publish_middle_owed _ _ _ _ _ (proj1 I1) Em) as [bs [cap [off [Hb [Ho Hk]]]]].
+    assert (Hstep : sstep (w_sess w1) LOther s2).
+    { replace s2 with (fst (publish_middle (w_sess w1) (w_live w1) r)) by now rewrite Em. apply SS_publish. }
+    destruct (finish_retained_every fuel w1 s2 bs op w' I1 Hn1 Hstep Ho Hk H) as [[Y2 [Hi2 Hw2]] [Hnmp Hn]].
+    destruct Hd1 as [Hw1|[A [B [Eab [Hw1 N1]]]]].
+    + exists w1, bs, cap, off, (owed (s_ob (w_sess w)) ++ Y2). split; [reflexivity|]. split; [exact Hb|].
+      split; [apply ins_app_l; exact Hi2|]. split; [|exact Hn]. rewrite Hw2, Hw1, <- app_assoc. reflexivity.
+    + exists w1, bs, cap, off, ((A ++ PINGREQ_BYTES ++ B) ++ bs). split; [reflexivity|]. split; [exact Hb|].
+      split; [apply ins_app_r; right; exists A, B; split; [exact Eab|reflexivity]|]. split; [|exact Hn].
+      rewrite (Hnmp N1), Hw1, <- !app_assoc. reflexivity.
+  - cbn [finish_mid] in H. destruct (write_all fuel bs0 (upd_sess w1 s2)) as [w3 r3]. destruct r3 as [u|e| | |]; try discriminate.
+    + destruct (io_flush w3) as [w4 fr]. destruct fr; discriminate.
+    + destruct e; discriminate.
+Qed.
+
+Theorem op_subscribe_wire_every_transport : forall fuel topics ps w w' op,
+  WInv (w_sess w) -> op_subscribe fuel topics ps w = (w', ODone (Some op)) ->
+  exists bs cap off Y,
+    enc_subscribe cap {| sq_pid := op_pid op; sq_props := ps; sq_topics := topics |} = SOk off bs /\
+    ins (owed (s_ob (w_sess w)) ++ bs) Y /\ w_wire w' = w_wire w ++ Y /\ next_step (s_ob (w_sess w')) = None.
+Proof.
+  intros fuel topics ps w w' op I H. unfold op_subscribe in H. destruct (negb (w_live w)); [discriminate|].
+  destruct topics as [|t0 ts]; [discriminate|]. set (topics := t0 :: ts) in *.
+  destruct (negb (props_valid_for (PSlice ps) CtxSubscribe)); [discriminate|]. unfold bindu in H.
+  destruct (flush_outbound fuel w) as [w1 o1] eqn:E1. destruct o1 as [u|e| | |]; try discriminate. destruct u.
+  destruct (flush_outbound_wire_every_full _ _ _ I E1) as [Hd1 [Hn1 [I1 _]]].
+  destruct (subscribe_middle (w_sess w1) topics ps) as [s2 m] eqn:Em.
+  destruct m as [e|o|bs0]; [cbn [finish_mid] in H; discriminate| |].
+  - assert (Eo : o = op).
+    { cbn [finish_mid] in H. unfold bindu in H. destruct (flush_outbound fuel (upd_sess w1 s2)) as [w3 o3]. destruct o3; try discriminate. now inversion H. }
+    subst o. unfold subscribe_middle in Em.
+    destruct (enqueue_middle_owed _ _ _ _ _ (proj1 I1) (fun id => enc_subscribe_fits {| sq_pid := id; sq_props := ps; sq_topics := topics |}) Em) as [bs [cap [off [Hb [Ho Hk]]]]].
+    assert (Hstep : sstep (w_sess w1) LOther s2).
+    { replace s2 with (fst (subscribe_middle (w_sess w1) topics ps)) by (unfold subscribe_middle; now rewrite Em). apply SS_subscribe. }
+    destruct (finish_retained_every fuel w1 s2 bs op w' I1 Hn1 Hstep Ho Hk H) as [[Y2 [Hi2 Hw2]] [Hnmp Hn]].
+    destruct Hd1 as [Hw1|[A [B [Eab [Hw1 N1]]]]].
+    + exists bs, cap, off, (owed (s_ob (w_sess w)) ++ Y2). split; [exact Hb|].
+      split; [apply ins_app_l; exact Hi2|]. split; [|exact Hn]. rewrite Hw2, Hw1, <- app_assoc. reflexivity.
+    + exists bs, cap, off, ((A ++ PINGREQ_BYTES ++ B) ++ bs). split; [exact Hb|].
+      split; [apply ins_app_r; right; exists A, B; split; [exact Eab|reflexivity]|]. split; [|exact Hn].
+      rewrite (Hnmp N1), Hw1, <- !app_assoc. reflexivity.
+  - unfold subscribe_middle, enqueue_middle in Em. destruct (retained_full _); [discriminate|]. destruct (next_packet_id _). destruct (encode_at _ _) as [o1 [off len|e]]; [|discriminate].
+    destruct (too_large _ _); [discriminate|]. destruct (retain_packet _ _ _ _); discriminate.
+Qed.
+
+Theorem op_unsubscribe_wire_every_transport : forall fuel topics ps w w' op,
+  WInv (w_sess w) -> op_unsubscribe fuel topics ps w = (w', ODone (Some op)) ->
+  exists bs cap off Y,
+    enc_unsubscribe cap {| uq_pid := op_pid op; uq_props := ps; uq_topics := topics |} = SOk off bs /\
+    ins (owed (s_ob (w_sess w)) ++ bs) Y /\ w_wire w' = w_wire w ++ Y /\ next_step (s_ob (w_sess w')) = None.
+Proof.
+  intros fuel topics ps w w' op I H. unfold op_unsubscribe in H. destruct (negb (w_live w)); [discriminate|].
+  destruct topics as [|t0 ts]; [discriminate|]. set (topics := t0 :: ts) in *.
+  destruct (negb (props_valid_for (PSlice ps) CtxUnsubscribe)); [discriminate|]. unfold bindu in H.
+  destruct (flush_outbound fuel w) as [w1 o1] eqn:E1. destruct o1 as [u|e| | |]; try discriminate. destruct u.
+  destruct (flush_outbound_wire_every_full _ _ _ I E1) as [Hd1 [Hn1 [I1 _]]].
+  destruct (unsubscribe_middle (w_sess w1) topics ps) as [s2 m] eqn:Em.
+  destruct m as [e|o|bs0]; [cbn [finish_mid] in H; discriminate| |].
+  - assert (Eo : o = op).
+    { cbn [finish_mid] in H. unfold bindu in H. destruct (flush_outbound fuel (upd_sess w1 s2)) as [w3 o3]. destruct o3; try discriminate. now inversion H. }
+    subst o. unfold unsubscribe_middle in Em.
+    destruct (enqueue_middle_owed _ _ _ _ _ (proj1 I1) (fun id => enc_unsubscribe_fits {| uq_pid := id; uq_props := ps; uq_topics := topics |}) Em) as [bs [cap [off [Hb [Ho Hk]]]]].
+    assert (Hstep : sstep (w_sess w1) LOther s2).
+    { replace s2 with (fst (unsubscribe_middle (w_sess w1) topics ps)) by (unfold unsubscribe_middle; now rewrite Em). apply SS_unsubscribe. }
+    destruct (finish_retained_every fuel w1 s2 bs op w' I1 Hn1 Hstep Ho Hk H) as [[Y2 [Hi2 Hw2]] [Hnmp Hn]].
+    destruct Hd1 as [Hw1|[A [B [Eab [Hw1 N1]]]]].
+    + exists bs, cap, off, (owed (s_ob (w_sess w)) ++ Y2). split; [exact Hb|].
+      split; [apply ins_app_l; exact Hi2|]. split; [|exact Hn]. rewrite Hw2, Hw1, <- app_assoc. reflexivity.
+    + exists bs, cap, off, ((A ++ PINGREQ_BYTES ++ B) ++ bs). split; [exact Hb|].
+      split; [apply ins_app_r; right; exists A, B; split; [exact Eab|reflexivity]|]. split; [|exact Hn].
+      rewrite (Hnmp N1), Hw1, <- !app_assoc. reflexivity.
+  - unfold unsubscribe_middle, enqueue_middle in Em. destruct (retained_full _); [discriminate|]. destruct (next_packet_id _). destruct (encode_at _ _) as [o1 [off len|e]]; [|discriminate].
+    destruct (too_large _ _); [discriminate|]. destruct (retain_packet _ _ _ _); discriminate.
 Qed.
 
 (* computed: keep-alive 1 s (PINGREQ due 500 ms after the CONNECT); the first write of a QoS 1 publish lasts 800 ms and takes one
